@@ -23,10 +23,11 @@ import OdakModel.Exec.OpsGenDefocus
 import OdakModel.Exec.OpsGenSphere
 import OdakModel.Exec.OpsGenPipeMore
 import OdakModel.Exec.OpsGenColour
+import OdakModel.Exec.OpsGenRay
 /-! `odakdrv`: reads one operation per line on stdin, prints the model's answer per line. -/
 namespace Odak.Exec
 
-def allOps : List (String × Handler) := opsIndex ++ opsWave ++ opsBeam ++ opsRot ++ opsPolar ++ opsRay ++ opsRays ++ opsColour ++ opsSlicing ++ opsFovea ++ opsProp ++ opsLoss ++ opsCodec ++ opsHolo ++ opsDual ++ opsGen ++ opsGenGeom ++ opsGenSamp ++ opsGenSlice ++ opsGenQuant ++ opsGenFovea ++ opsGenLoss ++ opsGenPipe ++ opsGenGeomBatch ++ opsGenDefocus ++ opsGenSphere ++ opsGenPipeMore ++ opsGenColour
+def allOps : List (String × Handler) := opsIndex ++ opsWave ++ opsBeam ++ opsRot ++ opsPolar ++ opsRay ++ opsRays ++ opsColour ++ opsSlicing ++ opsFovea ++ opsProp ++ opsLoss ++ opsCodec ++ opsHolo ++ opsDual ++ opsGen ++ opsGenGeom ++ opsGenSamp ++ opsGenSlice ++ opsGenQuant ++ opsGenFovea ++ opsGenLoss ++ opsGenPipe ++ opsGenGeomBatch ++ opsGenDefocus ++ opsGenSphere ++ opsGenPipeMore ++ opsGenColour ++ opsGenRay
 
 def step (line : String) : String :=
   match (line.trimAscii.toString.splitOn " ").filter (· ≠ "") with
